@@ -6,6 +6,8 @@ emitted functions, over Equal pairs produced by equality-preserving rewrites and
 Cross-process repeatability: the ops are run by a second process and the answers compared."""
 import os
 import subprocess
+import shutil
+import tempfile
 from vlib import common
 
 PLUGINS = ["equal", "compare", "hash"]
@@ -36,11 +38,19 @@ def run(rep):
     # second process: same answers (hashing is repeatable across processes)
     cdir = info["dir"]
     if info.get("build_rc") == 0:
-        with open(os.path.join(cdir, "ops.txt")) as fin:
-            p = subprocess.run([os.path.join(cdir, "corpus.bin")], stdin=fin, stdout=subprocess.PIPE, env=common.GOENV, timeout=3600)
-        second = p.stdout.decode()
-        first = open(os.path.join(cdir, "impl.txt")).read()
+        def again():
+            with open(os.path.join(cdir, "ops.txt")) as fin:
+                return subprocess.run([os.path.join(cdir, "corpus.bin")], stdin=fin, stdout=subprocess.PIPE, env=common.GOENV, timeout=3600).stdout.decode()
+        # under the lock of the corpus directory: a concurrent check that shares this corpus may be rewriting impl.txt
+        with common.Lock("corpus-" + os.path.basename(cdir)):
+            second = again()
+            first = open(os.path.join(cdir, "impl.txt")).read()
+            if first.count("\n") != second.count("\n"):
+                # impl.txt is not the complete answer stream of these ops (rewritten meanwhile): compare two fresh processes
+                first = again()
         rep.cov["cross_process_lines"] = second.count("\n")
+        if first.count("\n") != second.count("\n"):
+            raise common.CheckError("two runs of the corpus program over the same ops answer %d and %d lines" % (first.count("\n"), second.count("\n")))
         if first != second:
             a, b = first.splitlines(), second.splitlines()
             i = next((k for k in range(min(len(a), len(b))) if a[k] != b[k]), min(len(a), len(b)))
@@ -79,8 +89,47 @@ def alias_probe(rep):
     finally:
         shutil.rmtree(d, ignore_errors=True)
 
+    method_probe(rep, binp)
+
     from vlib import probes
     probes.run(rep, "C04")
+
+
+def method_probe(rep, binp):
+    """Named types that are not structs (string, slice, number, array, map) with their own Equal and Hash methods, reached
+    as a field, behind a pointer, as an element and as a map value of one struct: user methods of such types are outside
+    the Lean method model (S/Methods: structs whose methods look at the first field), so this clause is judged on the
+    emitted code alone: whenever derived Equal holds two values equal, derived Hash must agree, and be repeatable."""
+    data = os.path.join(common.VERIF, "vlib", "data", "methodprobe")
+    d = tempfile.mkdtemp(prefix="verif-c04-methods-")
+    try:
+        for f in os.listdir(data):
+            shutil.copyfile(os.path.join(data, f), os.path.join(d, f[:-4]))
+        with open(os.path.join(d, "go.mod"), "w") as f:
+            f.write("module methodprobe\n\ngo 1.24\n")
+        rc, err, to = common.run_goderive(binp, d, ["."], timeout=120, mem_gb=4)
+        rep.cov["programs"] += 1
+        srcs = {f: open(os.path.join(d, f)).read() for f in ("types.go", "main.go")}
+        if rc != 0 or to:
+            rep.violation("goderive failed on the method probe (named non-struct types with their own Equal and Hash): " + err[-400:],
+                          {"files": srcs}, True)
+            return
+        p = common.sh(["go", "run", "."], cwd=d, timeout=300)
+        out = p.stdout + p.stderr
+        lines = [l for l in p.stdout.splitlines() if l.startswith(("ok ", "FAIL ", "SKIP "))]
+        fails = [l for l in lines if l.startswith("FAIL ")]
+        rep.cov["evaluations"] += len(lines)
+        rep.cov.setdefault("unmodelled", {})["method_probe"] = {
+            "cases": len(lines), "ok": sum(l.startswith("ok ") for l in lines), "skipped_equal_tells_apart": sum(l.startswith("SKIP ") for l in lines),
+            "why": "own Equal / Hash methods of named NON-struct types are outside S/Methods; judged on the emitted code: Equal => same hash"}
+        if fails:
+            gen = open(os.path.join(d, "derived.gen.go")).read()
+            rep.violation("own Equal and Hash methods of a named non-struct component: derived Equal holds two values equal and derived Hash "
+                          "tells them apart: " + "; ".join(fails)[:600], {"files": srcs, "derived": gen[:8000], "output": out[:3000]}, True)
+        elif p.returncode != 0 or not lines:
+            rep.violation("the method probe does not build or run with the emitted code: " + out[:600], {"files": srcs, "output": out[:3000]}, True)
+    finally:
+        shutil.rmtree(d, ignore_errors=True)
 
 def replay(rep, path):
     import json
